@@ -1,6 +1,7 @@
 (* C14 (hierarchical part): Ward's cost algebra, a checker for proper Ward
    dendrograms with its soundness proof. *)
 From Coq Require Import List Bool ZArith QArith Lia Lqa Arith.
+From NV.Generated Require Import ClusteringFrags.
 From NV.C14 Require Import Model ProofsK ModelH.
 Import ListNotations.
 
@@ -13,7 +14,7 @@ Proof. pose proof (ss_expand (map g xs) c) as E. rewrite map_length, !map_map in
 Lemma inertia_vec_is_wss d xs : xs <> [] -> forall d', (d' <= d)%nat ->
   inertia_vec d' (Qn (length xs)) (colsum d xs) (colsq d xs)
   == qsum (map (fun x => sqdist d' x (vmean d xs)) xs).
-Proof. intros Hne. induction d' as [|d' IH]; intros Hd; cbn [inertia_vec sqdist].
+Proof. intros Hne. induction d' as [|d' IH]; intros Hd; cbn [inertia_vec sqdist]; unfold src_inertia_term.
   - now rewrite qsum_map_zero.
   - rewrite qsum_map_plus, IH by lia.
     assert (Hp : 0 < Qn (length xs)) by (apply Qn_pos; destruct xs; [congruence|simpl; lia]).
